@@ -357,6 +357,31 @@ M("r18-os-move-loses-last-byte", ["C19", "C16"], "break",
   [("objstack.c", "  os->os_top_object_free = os->os_top_object_start + os_top_object_length;\n  os->os_boundary = os->os_top_object_start + segment_length;",
     "  os->os_top_object_free = os->os_top_object_start + os_top_object_length - 1;\n  os->os_boundary = os->os_top_object_start + segment_length;")],
   "_OS_expand_memory/length-kept")
+M("c11-revert-F28-stale-kept-pointer", ["C11"], "break",
+  [("sgramm.y", "	  prev = arr + j;\n	  arr[j++] = *term;", "	  prev = term;\n	  arr[j++] = *term;")], "set_sgrammar/kept-element")
+M("c11-revert-F28-merge-condition", ["C11"], "break",
+  [("sgramm.y", "      else if (prev->code == -1)\n", "      else if (prev->code != -1)\n")], "set_sgrammar/merge-condition")
+M("c11-merge-condition-negative-benign", ["C11"], "benign",
+  [("sgramm.y", "      else if (prev->code == -1)\n", "      else if (prev->code < 0)\n")])
+M("c10-revert-F29-axiom-checked", ["C10"], "break",
+  [("yaep.c", "      symb = rules_ptr->first_rule->rhs[0];\n      if (!symb->derivation_p)", "      symb = grammar->axiom;\n      if (!symb->derivation_p)")], "YAEP_NONTERM_DERIVATION")
+
+# ---- C03 structural clauses --------------------------------------------------------------------
+M("c03-alt-wraps-alt", ["C03"], "break",
+  [("yaep.c", "  if ((*place)->type == YAEP_ALT)\n    alt->val.alt.next = *place;\n  else\n    {", "  {")], "place_translation/alt.node")
+M("c03-candidates-break-always", ["C03"], "break",
+  [("yaep.c", "	      *ambiguous_p = TRUE;\n	      if (grammar->one_parse_p)\n		break;", "	      *ambiguous_p = TRUE;\n	      break;")], "make_parse/early-exit")
+M("c03-candidates-explicit-compare-benign", ["C03"], "benign",
+  [("yaep.c", "	      *ambiguous_p = TRUE;\n	      if (grammar->one_parse_p)\n		break;", "	      *ambiguous_p = TRUE;\n	      if (grammar->one_parse_p != 0)\n		break;")])
+M("c03-reuse-without-found", ["C03"], "break",
+  [("yaep.c", "		  if (table_state == NULL || new_p)\n		    {", "		  if (table_state == NULL)\n		    {")], "make_parse/reuse-only-when-found")
+M("c03-node-key-without-origin", ["C03", "C01"], "break",
+  [("yaep.c", "  return (state1->rule == state2->rule && state1->orig == state2->orig\n	  && state1->pl_ind == state2->pl_ind);", "  return (state1->rule == state2->rule\n	  && state1->pl_ind == state2->pl_ind);")], "parse_state_eq/compares-key")
+M("r20-cache-key-without-lookahead", ["C01", "C09"], "break",
+  [("yaep.c", "  return set1 == set2 && term1 == term2 && lookahead1 == lookahead2;", "  return set1 == set2 && term1 == term2;"),
+   ("yaep.c", "  int lookahead1 = ((struct set_term_lookahead *) s1)->lookahead;\n  int lookahead2 = ((struct set_term_lookahead *) s2)->lookahead;\n", "")], "set_term_lookahead_eq/compares-key")
+M("r20-symbol-hash-uses-other-field", ["C10"], "break",
+  [("yaep.c", "  assert (symb->term_p);\n  return symb->u.term.code;", "  assert (symb->term_p);\n  return symb->u.term.code + symb->num;")], "symb_code_hash/hashes-key-only")
 
 # ---- R8 / R2f (C16, C19) ----------------------------------------------------------------------------
 M("r8-revert-F14", ["C19", "C16"], "break", [("hashtab.cpp", "		  entry_ptr = first_deleted_entry_ptr;\n		  *entry_ptr = EMPTY_ENTRY;", "		  entry_ptr = first_deleted_entry_ptr;\n		  *entry_ptr = DELETED_ENTRY;")], "find_hash_table_entry~")
